@@ -107,7 +107,9 @@ func renderBounded(html string, fc text.FontConfiguration) (out *wr.Rendered, ru
 			panic(r)
 		}
 	}()
-	out, err = wr.Render(wr.Opts{HTML: html, NoWrite: true, Fonts: fc})
+	// NoProgressMonitor: wr.Render's own stall monitor would replace the hook installed above (it
+	// only sees a state repeated on consecutive pages; the runaway met here alternates states).
+	out, err = wr.Render(wr.Opts{HTML: html, NoWrite: true, Fonts: fc, NoProgressMonitor: true})
 	return out, false, err
 }
 
